@@ -16,6 +16,19 @@ for line in p.stdout.splitlines():
     if ev.get("Action") == "pass" and ev.get("Test"):
         passed.add(ev["Package"] + "::" + ev["Test"])
 missing = sorted(want - passed)
+# The git-daemon and timing tests are flaky when all packages run in parallel
+# on a loaded machine (also on the unmodified tree): re-run the affected
+# packages alone before reporting.
+for pkg in sorted({m.split("::")[0] for m in missing}):
+    q = subprocess.run(["go", "test", "-json", "-vet=off", "-count=1", "-timeout", "25m", pkg], cwd=repo, env=env, capture_output=True, text=True)
+    for line in q.stdout.splitlines():
+        try:
+            ev = json.loads(line)
+        except Exception:
+            continue
+        if ev.get("Action") == "pass" and ev.get("Test"):
+            passed.add(ev["Package"] + "::" + ev["Test"])
+missing = sorted(want - passed)
 print(f"baseline={len(want)} passed_now={len(passed)} baseline_missing={len(missing)}")
 for m in missing[:40]:
     print("  MISSING", m)
